@@ -2090,6 +2090,8 @@ class Recipe:
             raise TypeError("Quantity must be a str.")
         if name and not isinstance(name, str):
             raise TypeError("Name must be a str.")
+        if source.name not in self.results:
+            raise ValueError(f"Source {source.name} has not been previously declared for use.")
 
         quantity_value, quantity_unit = Unit.parse_quantity(quantity)
         if quantity_value <= 0:
